@@ -9,11 +9,13 @@ Module GrpSim.
 
   Definition kI (k : kpc) : nat := match k with KIdle => 0 | _ => 1 end.
   Definition kRN (k : kpc) : nat := match k with KRet r => r | KIdle => 0 | _ => 1 end.
+  Definition kRt (k : kpc) : nat := match k with KRet _ => 1 | _ => 0 end.
+  Definition kCl (k : kpc) : nat := match k with KClient _ => 1 | _ => 0 end.
   Definition cI (x : cpc) : nat := match x with CIdle => 0 | _ => 1 end.
   Definition cR1 (x : cpc) : nat := match x with CRet 1 => 1 | _ => 0 end.
   Definition cRN (x : cpc) : nat :=
     match x with CRel1 r | CRelWait r | CRel2 r | CRelHe r | CRel3 r | CRel4 r | CRet r => r | _ => 0 end.
-  Lemma k_spec2 k : kI k <= 1 /\ k1 k + k26 k <= kI k. Proof. destruct k; cbn; lia. Qed.
+  Lemma k_spec2 k : kI k <= 1 /\ k1 k + k26 k + kRt k <= kI k /\ kCl k <= k56 k /\ kCl k + k5 k <= 1. Proof. destruct k; cbn; lia. Qed.
   Lemma c_spec2 x : cI x <= 1 /\ cR1 x <= cI x /\ cSess x <= cI x /\ (cR1 x = 1 -> cRN x = 1).
   Proof. destruct x as [| | | | | | | | | | | | |[|[|r]]]; cbn; lia. Qed.
 
@@ -23,7 +25,7 @@ Module GrpSim.
     r_kin : b2n (q_kin q) = kI (kc s);
     r_kret : b2n (q_kret q) <= b2n (client_closed s) /\ b2n (client_closed s) <= b2n (q_kret q) + kI (kc s) /\
              (b2n (q_kret q) = 1 -> kRN (kc s) = 0);
-    r_kr : kRN (kc s) <= 1;
+    r_kr : kRN (kc s) <= 1 /\ kRt (kc s) <= b2n (once s) /\ (kCl (kc s) = 1 -> len (errs s) = 0);
     r_e : b2n (q_e q) = b2n (seen_e s) /\ b2n (seen_e s) <= b2n (closed (errs s)) /\ (b2n (seen_e s) = 1 -> len (errs s) = 0);
     r_cl : b2n (client_closed s) = 1 -> len (errs s) = 0;
     r_cin : b2n (q_cin q) = cI (cc s);
@@ -48,10 +50,18 @@ Module GrpSim.
     | H : ?l = false |- context [?l] => rewrite H
     end.
 
+  Ltac bool_goal1 :=
+    repeat match goal with
+    | |- context [b2n (?a || ?b)] => destruct a eqn:?; destruct b eqn:?; cbn
+    | |- context [b2n (?a && ?b)] => destruct a eqn:?; destruct b eqn:?; cbn
+    | |- context [b2n (?a =? ?b)] => destruct (a =? b) eqn:?; bool_hyps; cbn
+    end.
   Ltac finish_R I' :=
     first
       [ exfalso; lia
-      | constructor; [exact I' | ..]; unf; cbn in *; rw_consts; cbn in *; try lia; bool_goal; try lia ].
+      | constructor; [exact I' | ..];
+        unfold set_errs, with_panic, set_kc, set_cc, set_lk, set_sess, set_ctx, set_hb, set_lc, set_claims, set_budget, set_fw, claims;
+        cbn; rw_consts; cbn; try lia; bool_goal1; try lia ].
 
   Ltac sim_prep :=
     match goal with HR : R ?s ?q, H : step ?c ?s ?a = Some ?s', G : _ \/ _ |- _ =>
@@ -60,6 +70,7 @@ Module GrpSim.
       clear G;
       scbn H; unfold tick, toil, he_check, he_send, sync_checked in H;
       step_cases H; pair_cases; bool_hyps; pair_cases; bool_hyps;
+      repeat match goal with X : _ \/ _ |- _ => destruct X end; bool_hyps;
       match goal with HR : R ?s0 ?q0 |- _ =>
         destr_R HR; pose_specs s0; pose proof (k_spec2 (kc s0)); pose proof (c_spec2 (cc s0));
         match goal with RI : Inv s0 |- _ => destr_inv RI end;
@@ -78,6 +89,7 @@ Module GrpSim.
           lazymatch goal with |- context [if b then _ else _] => destruct b | |- context [b || _] => destruct b
                             | |- context [_ || b] => destruct b | |- context [b && _] => destruct b
                             | |- context [_ && b] => destruct b | |- context [negb b] => destruct b end end;
+        repeat match goal with |- context [?a =? ?b] => destruct (a =? b) eqn:? | |- context [?a <=? ?b] => destruct (a <=? b) eqn:? end;
         cbn in *; q_cases; bool_hyps; subst; cbn in *;
         first [ exfalso; cbn in *; lia
               | eexists; split; [reflexivity|]; finish_R I' ]
